@@ -70,6 +70,12 @@ def r2_allocation(ctx):
               "the accumulation loops are not ballots -> positions -> members with scores[member] updated")
     # the running index
     idx_incs = [n for n in astx.walk_own(pos_loop) if isinstance(n, ast.AugAssign) and isinstance(n.target, ast.Name) and isinstance(n.op, ast.Add) and pm.get(n) is pos_loop]
+    # (`i = i + k` and `i = k + i` are the same advance)
+    for n in astx.walk_own(pos_loop):
+        if isinstance(n, ast.Assign) and len(n.targets) == 1 and isinstance(n.targets[0], ast.Name) and isinstance(n.value, ast.BinOp) and isinstance(n.value.op, ast.Add) \
+                and pm.get(n) is pos_loop and (astx.is_name(n.value.left, n.targets[0].id) or astx.is_name(n.value.right, n.targets[0].id)):
+            other = n.value.right if astx.is_name(n.value.left, n.targets[0].id) else n.value.left
+            idx_incs.append(ast.copy_location(ast.AugAssign(target=n.targets[0], op=ast.Add(), value=other), n))
     if len(idx_incs) != 1:
         ctx.violated(f, pos_loop, "running index advances once per position", f"{len(idx_incs)} index updates at position level")
         return
@@ -357,27 +363,25 @@ def r6_top_m(ctx):
             ctx.obs.append(o)
     if n < 4:
         ctx.vanished("top-m selector call sites" + ": " + f"only {n} single-round rules select through elect_cands_from_set_ranking")
-    # inside the selector: groups are taken from index 0 upward
-    pm = astx.parents(sel.node)
-    loop = [x for x in astx.walk_own(sel.node) if isinstance(x, ast.While)]
+    # inside the selector: groups are taken from index 0 upward (iteration table of the selector, rules/selmodel.py)
+    from rules import selmodel
+    sm = selmodel.model(prog)
+    loop = [sm.loop] if sm.loop is not None else []
     good = False
-    if loop:
-        lp = loop[0]
-        app = [c for c in astx.calls_in(lp, "append", own_only=False) if pm.get(pm.get(c)) is lp]
-        arg0 = app[0].args[0] if app else None
-        if isinstance(arg0, ast.Name):
-            # a temporary holding ranking[i], assigned in the loop just before it is appended
-            dv0 = astx.unique_def(sel.node, arg0.id)
-            arg0 = dv0 if isinstance(dv0, ast.Subscript) else arg0
-        if app and isinstance(arg0, ast.Subscript):
-            i = astx.u(arg0.slice)
-            init = [dv for st, dv in astx.defs_of(sel.node, i) if dv is not None and astx.is_const(dv, 0)]
-            inc = [x for x in lp.body if isinstance(x, ast.AugAssign) and astx.is_name(x.target, i) and isinstance(x.op, ast.Add) and astx.is_const(x.value, 1)]
-            # the group is appended unconditionally, before the overshoot test (the first `if` of the body)
-            first_if = next((k for k, x in enumerate(lp.body) if isinstance(x, ast.If)), len(lp.body))
-            app_st = astx.stmt_of(app[0], pm)
-            good = astx.u(arg0.value) == sel.params[0] and len(init) == 1 and len(inc) == 1 and lp.body[-1] is inc[0] \
-                and any(x is app_st for x in lp.body[:first_if])
+    if sm.loop is not None and not sm.problem and sm.I is not None:
+        nexts = sm.kinds("next")
+        init = [dv for st_, dv in astx.defs_of(sel.node, sm.I) if dv is not None and st_.lineno < sm.loop.lineno]
+        good = bool(nexts) and len(init) == 1 and astx.is_const(init[0], 0)
+        for o in nexts:
+            e = o.state.get(sm.E)
+            good = good and e is not None and len(e.segs) == 2 and e.segs[1][0] == "elem" and sm.N().key(e.segs[1][1]) == sm.group() \
+                and o.state.get(sm.I) is not None and sm.rat_eq(o.state[sm.I], f"{sm.I} + 1")
+        # nothing but the loop moves the index
+        others = [st_ for st_, dv in astx.defs_of(sel.node, sm.I) if not any(x is st_ for x in ast.walk(sm.loop)) and not (dv is not None and astx.is_const(dv, 0))]
+        good = good and not others
+    elif sm.problem and sm.loop is not None:
+        ctx.undecided(sel, sm.loop, "selector consumes ranking[0], ranking[1], ... in order", sm.problem)
+        return
     ctx.check(good, sel, loop[0] if loop else sel.node, "selector consumes ranking[0], ranking[1], ... in order", "", "the selector no longer walks the ranking from its top group downward")
 
 
